@@ -170,6 +170,11 @@ fn exec_twice_same<S: Scenario>(s: &S, case: &S::Case, decisions: &[u64], first:
     }
 }
 
+/// What two executions of one (case, decisions) are compared by.
+fn fingerprint(r: &RunResult) -> (u64, u64, Option<(String, String)>) {
+    (r.log_hash, r.signature, r.violation.as_ref().map(|v| (v.oracle.clone(), v.class.clone())))
+}
+
 pub fn run_batch<S: Scenario>(s: &S, cfg: &BatchCfg) -> BatchOut {
     let t0 = Instant::now();
     let next = AtomicU64::new(0);
@@ -253,6 +258,15 @@ pub fn run_batch<S: Scenario>(s: &S, cfg: &BatchCfg) -> BatchOut {
                             if again1.is_none() && again2.is_none() {
                                 transient = true;
                                 div = None;
+                            } else {
+                                // the odd one out may have been the *first* execution: three
+                                // further executions that agree with one another (and carry no
+                                // verdict the first one lacks) make the first the transient
+                                let x: Vec<_> = (0..3).map(|_| fingerprint(&s.execute(&case, Decisions::replay(r.decisions.clone())))).collect();
+                                if x[0] == x[1] && x[1] == x[2] && x[0].2 == fingerprint(&r).2 {
+                                    transient = true;
+                                    div = None;
+                                }
                             }
                         }
                     }
